@@ -608,7 +608,17 @@ def bind(I, v, obj, owner=None):
 
 
 def getattr_(I, obj, name):
-    from .interp import AbsIter, OpaqueStr, ConcIter
+    from .interp import AbsIter, OpaqueStr, ConcIter, SuperProxy
+    if isinstance(obj, SuperProxy):
+        o = obj.obj
+        mro = (o.cls if isinstance(o, Obj) else o).mro
+        start = mro.index(obj.cls) + 1 if obj.cls in mro else 0
+        for c in mro[start:]:
+            if name in c.ns:
+                return bind(I, c.ns[name], o, c)
+        if name == "__init__":
+            return Native("object.__init__", lambda I_, a, k: None)
+        raise Unsupported(f"super().{name} not found")
     if isinstance(obj, Obj):
         if name in obj.attrs:
             v = obj.attrs[name]
